@@ -52,6 +52,13 @@ def slot_clearing_sites(body):
         cb = cs.callee_body()
         if cb is not None and cb.key != body.key and none_store_blocks(cb):
             out.append(cs.bb)
+        elif cb is None:
+            # a call through `&dyn IoLoopInner`: every implementation it can reach clears the slot
+            from props import common as _cm
+
+            tg = _cm.callee_bodies(cs)
+            if tg and all(none_store_blocks(t) for t in tg):
+                out.append(cs.bb)
     return out
 
 
